@@ -65,6 +65,7 @@ def on_forms(l, r, lref, rref):
 
 def single_joins(tier):
     out = []
+    full = tier != "quick"
     pairs = [
         ("independent", A, B, lambda n: dref(A, n), lambda n: dref(B, n), ["std", "emptyR", "emptyL", "nulls"]),
         ("common-ancestor", A, A2, lambda n: dref(A, n), lambda n: dref(A2, n), ["std"]),
@@ -72,18 +73,29 @@ def single_joins(tier):
         ("aliased", al_a, al_b, lambda n: aref("a", n), lambda n: aref("b", n), ["std"]),
         ("aliased", al_x, al_y, lambda n: aref("x", n), lambda n: aref("y", n), ["std", "nulls"]),
     ]
-    for shape, l, r, lref, rref, datas in pairs:
+    for pi, (shape, l, r, lref, rref, datas) in enumerate(pairs):
         for how in DOCUMENTED + CASE_VARIANTS:
             for fname, on in on_forms(l, r, lref, rref):
-                for data in datas:
-                    if how in CASE_VARIANTS and data != datas[0]:
+                for di, data in enumerate(datas):
+                    if how in CASE_VARIANTS and di > 0:
                         continue
+                    if not full:
+                        # quick tier: the whole spelling x on-form product on the first (independent) pair and first data variant;
+                        # elsewhere one spelling per kind on every on-form, and every spelling on the two main on-forms
+                        if how in CASE_VARIANTS and pi > 0:
+                            continue
+                        if (pi > 0 or di > 0) and how not in ONE_PER_KIND and fname not in ("name", "expr"):
+                            continue
+                        if di > 0 and how not in ONE_PER_KIND:
+                            continue
                     out.append(case(l, [step(r, on, how)], None, data, shape))
     # no colliding column names at all (the only class in which a right join with an expression condition is right)
     for how in DOCUMENTED:
-        for on in (exprs([b("Eq", dref(A, "k"), dref(D, "k2"))]), exprs([b("Eq", nref("k"), nref("k2"))]),
-                   exprs([b("NullSafeEq", dref(A, "k"), dref(D, "k2"))]), None):
+        for oi, on in enumerate((exprs([b("Eq", dref(A, "k"), dref(D, "k2"))]), exprs([b("Eq", nref("k"), nref("k2"))]),
+                                 exprs([b("NullSafeEq", dref(A, "k"), dref(D, "k2"))]), None)):
             for data in ("std", "nulls"):
+                if not full and how not in ONE_PER_KIND and (oi > 0 or data != "std"):
+                    continue
                 out.append(case(A, [step(D, on, how)], None, data, "independent"))
     # eqNullSafe and a non-equi condition on the colliding pair
     for how in ONE_PER_KIND:
@@ -133,7 +145,9 @@ def joins_then(tier):
             for on in (names(["k"], True), on_e):
                 if on is None:
                     continue
-                for fin in fins_for([l, r]):
+                for fi, fin in enumerate(fins_for([l, r])):
+                    if tier == "quick" and shape != "independent" and fi in (1, 4, 5):
+                        continue
                     out.append(case(l, [step(r, on, how)], fin, "std", shape))
     return out
 
@@ -203,7 +217,7 @@ def corpus():
 
 
 def gen_cases(rnd, tier):
-    cs = corpus() + single_joins(tier) + joins_then(tier) + chains(rnd, 160 if tier == "quick" else 2500)
+    cs = corpus() + single_joins(tier) + joins_then(tier) + chains(rnd, 120 if tier == "quick" else 2500)
     seen, out = set(), []
     for c in cs:
         k = cc.key({x: c[x] for x in ("left", "steps", "fin", "data")})
